@@ -15,6 +15,7 @@ import (
 	"time"
 
 	"verifharness/gen"
+	"verifharness/yg"
 )
 
 // PropInfo carries the static text that goes into evidence files.
@@ -103,6 +104,9 @@ func runUnit(a []string) int {
 		}()
 		u.Run(c)
 	}()
+	if yg.Hung() && u.Prop != "C13" {
+		c.Infra("an in-process call into yaccgo did not return within %v (termination is property C13; this unit gave up)", yg.BuildDeadline)
+	}
 	c.finish()
 	b, _ := json.Marshal(&c.P)
 	path := filepath.Join(c.OutDir, fmt.Sprintf("%s-%s-%d.json", u.Prop, u.Name, shard))
